@@ -535,7 +535,8 @@ WellTyped(S, t, j) ==
 (* PART M, C05: ggql's result coercion (resolve / resolveList / CoerceOut)  *)
 (* Deviations:                                                             *)
 (*   IntTruncOut  intScalar/int64Scalar.CoerceOut convert with int32(v) /  *)
-(*                int64(v) without a range or integrality check            *)
+(*                int64(v) without a range check                           *)
+(*   FloatTruncOut  ... and truncate a float that has a fraction           *)
 (*   NonFiniteOut floatScalar/float64Scalar.CoerceOut do not check that    *)
 (*                the result is finite                                     *)
 (*   ParseFailLeak  when a string cannot be parsed CoerceOut returns the   *)
@@ -561,10 +562,10 @@ LeafCoOut(S, n, gv, dv) ==
          IN IF gv.k \notin {"num", "str"} THEN ErrJ
             ELSE IF p = "" THEN ParseFail(gv, dv)
             ELSE IF Pt[p].int /\ fits THEN Num(p, g)
+            ELSE IF ~intSrc /\ Pt[p].tr # "" /\ ~Pt[p].int                                    \* a fraction, in range
+            THEN (IF "FloatTruncOut" \in dv THEN Num(Pt[p].tr, g) ELSE ErrJ)                    \* truncates
             ELSE IF "IntTruncOut" \notin dv THEN ErrJ
             ELSE IF intSrc THEN (IF n = "Int" THEN Num(Pt[p].w32, g) ELSE Num("im2p63", g))    \* wraps
-            ELSE IF Pt[p].tr # "" THEN Num(Pt[p].tr, g)                                        \* truncates
-            ELSE IF n = "Int64" /\ Pt[p].int /\ Pt[p].i64 THEN Num(p, g)
             ELSE Wild(g)                                                                       \* out of range: unspecified
     [] n \in {"Float", "Float64"} ->
          LET g == IF n = "Float" THEN "float32" ELSE "float64"
